@@ -30,6 +30,8 @@ TUN = "ipv8/messaging/anonymization/tunnel.py"
 TC = "ipv8/messaging/anonymization/community.py"
 COM = "ipv8/community.py"
 SVC = "ipv8_service.py"
+CMG = "ipv8/attestation/communication_manager.py"
+IDC = "ipv8/attestation/identity/community.py"
 
 STATE_NAMES = {"CIRCUIT_STATE_READY": ".ready", "CIRCUIT_STATE_EXTENDING": ".extending", "CIRCUIT_STATE_CLOSING": ".closing"}
 CTYPE_NAMES = {"CIRCUIT_TYPE_DATA": ".data", "CIRCUIT_TYPE_IP_SEEDER": ".ipSeeder", "CIRCUIT_TYPE_RP_SEEDER": ".rpSeeder",
@@ -426,6 +428,59 @@ def translate() -> tuple[str, dict]:
             "def serviceWrappers (stats anyAnon : Bool) : List Wrapper :=",
             "  " + " ++ ".join(f"(if {c} then [{w}] else [])" for c, w in wraps), ""]
     meta["service_wrappers"] = wraps
+
+    # --- CommunicationManager.load: the second way an overlay comes by an anonymizing endpoint (a pseudonym's channel)
+    cmg = _parse(CMG)
+    load = _fn(_cls(cmg, "CommunicationManager", CMG), "load")
+    aliases = {}
+    for n in ast.walk(load):
+        if isinstance(n, ast.Assign) and len(n.targets) == 1 and isinstance(n.targets[0], ast.Name):
+            aliases[n.targets[0].id] = ast.unparse(n.value)
+    if "HiddenTunnelCommunity" not in aliases.get("tunnel_community", ""):
+        raise TranslatorError("CommunicationManager.load: tunnel_community is no longer looked up with get_overlay(HiddenTunnelCommunity)")
+
+    def anon_of(call_name, default):
+        calls = [n for n in ast.walk(load) if isinstance(n, ast.Call) and isinstance(n.func, ast.Name) and n.func.id == call_name]
+        if len(calls) != 1:
+            raise TranslatorError(f"CommunicationManager.load: expected one {call_name}(...) call, found {len(calls)}")
+        kw = {k.arg: k.value for k in calls[0].keywords}
+        if "anonymize" not in kw:
+            return default
+        src = ast.unparse(kw["anonymize"])
+        src = aliases.get(src, src) if isinstance(kw["anonymize"], ast.Name) else src
+        if src == "tunnel_community is not None":
+            return "hasTunnels"
+        if src in ("True", "False"):
+            return src.lower()
+        raise TranslatorError(f"CommunicationManager.load: {call_name}(anonymize={src}) not understood")
+    idc = _parse(IDC)
+    cc = next((n for n in idc.body if isinstance(n, ast.AsyncFunctionDef) and n.name == "create_community"), None)
+    if cc is None:
+        raise TranslatorError("identity/community.py: create_community not found")
+    cc_args = [a.arg for a in cc.args.args]
+    cc_defaults = dict(zip(cc_args[len(cc_args) - len(cc.args.defaults):], cc.args.defaults))
+    d = cc_defaults.get("anonymize")
+    cc_default = ast.unparse(d).lower() if isinstance(d, ast.Constant) and isinstance(d.value, bool) else None
+    if cc_default is None:
+        raise TranslatorError("create_community: no boolean default for anonymize")
+    if "anonymize=anonymize" not in ast.unparse(cc):
+        raise TranslatorError("create_community no longer passes anonymize on to the IdentitySettings")
+    com_default = None
+    for n in _cls(com, "CommunitySettings", COM).body:
+        if isinstance(n, ast.AnnAssign) and isinstance(n.target, ast.Name) and n.target.id == "anonymize" \
+                and isinstance(n.value, ast.Constant):
+            com_default = str(bool(n.value.value)).lower()
+    if com_default is None:
+        raise TranslatorError("CommunitySettings.anonymize default not found")
+    attach = [n for n in ast.walk(load) if isinstance(n, ast.Call) and isinstance(n.func, ast.Attribute)
+              and n.func.attr == "set_tunnel_community"]
+    if len(attach) != 1 or [ast.unparse(a) for a in attach[0].args] != ["tunnel_community"] or attach[0].keywords:
+        raise TranslatorError("CommunicationManager.load: set_tunnel_community(tunnel_community) not found")
+    out += ["/-- translated from CommunicationManager.load: `anonymize` handed to the pseudonym's identity overlay",
+            "    (create_community) and to its attestation overlay (AttestationSettings), given whether a",
+            "    HiddenTunnelCommunity is loaded; a missing keyword means the callee's default -/",
+            "def pseudonymAnonymize (hasTunnels : Bool) : Bool × Bool :=",
+            f"  ({anon_of('create_community', cc_default)}, {anon_of('AttestationSettings', com_default)})", ""]
 
     # --- Circuit.hops / hop / state / exit_flags
     circ = _cls(tun, "Circuit", TUN)
